@@ -301,6 +301,8 @@ def _mt(R, tier):
 
 
 GROUPS["module_traversal"] = _mt
+from suites import thorough as _th
+GROUPS["thorough:interpreter-vs-cpython"] = _th.g_crosscheck
 NO_FRAME_GROUPS = ("dependencies",)
 
 REPLAY = dict(c13.REPLAY)
